@@ -35,10 +35,7 @@ def _range_input(case):
 # rebuilds the range), a trim after the first evaluation is fine (S!B:B holds its value).
 #   A1=1, B1=2, B2=5, D4==SUM(B:B)+A1; ExcelCompiler(...).trim_graph(['S!A1'], ['S!D4']); evaluate('S!D4')
 #   -> FormulaEvalError (AttributeError: 'NoneType' object has no attribute 'value'), untrimmed 8
-@known_predicate('C08-unbounded-early-trim-direct')
-def _unbounded_early(case):
-    return (case.get('call') == 'trim-unbounded' and case.get('leg') == 'trimmed' and case.get('early') is True
-            and bool(case.get('independent_ranges')) and case.get('raises') == 'FormulaEvalError')
+# (repaired in /repo 460e342: no predicate; the stream reports it again if it returns)
 
 
 def ancestors(wb, n):
